@@ -21,6 +21,9 @@ pub enum Step {
     /// `J2(..)`: ask_join - peer 2's handler runs the plan, then returns the JoinHandle of a task that takes
     /// 25 ms (virtual); the asking hook awaits that task
     AskJoin { target: usize, plan: Vec<Step> },
+    /// `s15`: the hook tells its own actor (empty plan) with a 15 ms timeout - on a full mailbox that is a wait
+    /// that ends in Err(Timeout), never a self-deadlock and never an Ok for a message that was not accepted
+    SelfTell(u64),
 }
 
 pub fn parse_plan(s: &str) -> Option<Vec<Step>> {
@@ -37,6 +40,15 @@ pub fn parse_plan(s: &str) -> Option<Vec<Step>> {
                     *i += 1
                 }
                 ',' | '-' => *i += 1,
+                's' => {
+                    *i += 1;
+                    let mut num = String::new();
+                    while *i < cs.len() && cs[*i].is_ascii_digit() {
+                        num.push(cs[*i]);
+                        *i += 1;
+                    }
+                    out.push(Step::SelfTell(num.parse().ok()?));
+                }
                 'J' => {
                     *i += 1;
                     let mut num = String::new();
@@ -221,10 +233,18 @@ async fn do_ask(sh: &Arc<Shared>, me: usize, target: usize, timeout: Option<u64>
     let Some(r) = r else { return };
     sh.log(format!("N askStart {me} {target} {mid}"));
     let mut guard = AskDrop { sh, me, mid, done: false };
+    let t0 = tokio::time::Instant::now();
     let res = match timeout {
         None => r.ask(Run { mid, plan }).await,
         Some(d) => r.ask_with_timeout(Run { mid, plan }, Duration::from_millis(d)).await,
     };
+    if let (Some(d), Err(rsactor::Error::Timeout { .. })) = (timeout, &res) {
+        // virtual clock of the paused runtime: a Timeout before the deadline is wrong in every build
+        let el = t0.elapsed().as_millis() as u64;
+        if el < d {
+            sh.log(format!("N earlyTimeout {me} {mid} {el} {d}"));
+        }
+    }
     let txt = match &res {
         Ok(v) => {
             if *v != mid {
@@ -258,6 +278,20 @@ fn run_plan<'a>(sh: &'a Arc<Shared>, me: usize, plan: Vec<Step>, mid: u64) -> fu
                     panic!("scripted panic in peer hook");
                 }
                 Step::Ask { target, timeout, plan } => do_ask(sh, me, target, timeout, plan).await,
+                Step::SelfTell(d) => {
+                    let mid2 = sh.next_mid.fetch_add(1, SeqCst);
+                    let r = sh.peers.lock().unwrap().get(me - 1).cloned().flatten();
+                    let Some(r) = r else { continue };
+                    sh.log(format!("N tellStart {me} {me} {mid2}"));
+                    let res = r.tell_with_timeout(Run { mid: mid2, plan: vec![] }, Duration::from_millis(d)).await;
+                    let txt = match &res {
+                        Ok(()) => "ok",
+                        Err(rsactor::Error::Timeout { .. }) => "timeout",
+                        Err(rsactor::Error::Send { .. }) => "send",
+                        Err(_) => "other",
+                    };
+                    sh.log(format!("N tellRet {me} {mid2} {txt}"));
+                }
                 Step::AskJoin { target, plan } => {
                     let mid2 = sh.next_mid.fetch_add(1, SeqCst);
                     let r = sh.peers.lock().unwrap().get(target - 1).cloned().flatten();
@@ -576,6 +610,10 @@ impl NetGen {
                     continue;
                 }
             }
+            if self.rng.chance(1, 12) {
+                parts.push(format!("s{}", self.rng.pick(&[5u64, 15])));
+                continue;
+            }
             match self.rng.weighted(&[4, if depth < 4 { 5 } else { 0 }, if depth < 4 { 2 } else { 0 }, 1]) {
                 0 => parts.push("g".into()),
                 1 => match self.target(n, me) {
@@ -730,6 +768,69 @@ pub fn history_oracles(trace: &[String], acyclic: bool) -> Vec<String> {
     let mut pending: Vec<(usize, u64)> = vec![];
     let mut last_ask: std::collections::BTreeMap<usize, (usize, u64, Vec<(usize, usize, u64)>)> = Default::default();
     let num = |s: &str| s.parse::<u64>().unwrap_or(0);
+    // tells (self-tells from hooks, client tells) that returned Ok: (target, mid, position of the Ok)
+    let mut told: Vec<(usize, u64, usize)> = vec![];
+    let mut tell_target: std::collections::BTreeMap<u64, usize> = Default::default();
+    let mut client_mid: std::collections::BTreeMap<u64, (usize, u64, bool)> = Default::default(); // oid -> (target, mid, is tell)
+    let mut issued_at: std::collections::BTreeMap<u64, usize> = Default::default(); // mid -> position of its issue
+    let mut started_at: std::collections::BTreeMap<u64, usize> = Default::default(); // mid -> position of hStart
+    for (pos, l) in trace.iter().enumerate() {
+        let ws: Vec<&str> = l.split_whitespace().collect();
+        match ws.as_slice() {
+            ["N", "tellStart", _a, b, mid] => {
+                tell_target.insert(num(mid), num(b) as usize);
+                issued_at.insert(num(mid), pos);
+            }
+            ["N", "tellRet", _a, mid, "ok"] => {
+                if let Some(t) = tell_target.get(&num(mid)) {
+                    told.push((*t, num(mid), pos));
+                }
+            }
+            ["N", "cissue", oid, op, target, mid] => {
+                client_mid.insert(num(oid), (num(target) as usize, num(mid), *op == "tell"));
+                issued_at.insert(num(mid), pos);
+            }
+            ["N", "cret", oid, "ok"] => {
+                if let Some((t, mid, true)) = client_mid.get(&num(oid)) {
+                    told.push((*t, *mid, pos));
+                }
+            }
+            ["N", "askStart", _a, _b, mid] => {
+                issued_at.insert(num(mid), pos);
+            }
+            ["N", "hStart", _b, mid] => {
+                started_at.entry(num(mid)).or_insert(pos);
+            }
+            _ => {}
+        }
+    }
+    // C02: a send that completed before another send to the same actor began is handled first
+    'fifo: for (t, m1, ok_pos) in &told {
+        for (m2, iss) in &issued_at {
+            if m2 == m1 || iss < ok_pos {
+                continue;
+            }
+            // m2 was issued after m1's tell had returned Ok: if m2 (same target) was handled, m1 was handled before it
+            let same_target = trace.iter().any(|l| {
+                let ws: Vec<&str> = l.split_whitespace().collect();
+                matches!(ws.as_slice(), ["N", "hStart", b, mid] if num(mid) == *m2 && num(b) as usize == *t)
+            });
+            if !same_target {
+                continue;
+            }
+            match (started_at.get(m1), started_at.get(m2)) {
+                (Some(p1), Some(p2)) if p1 > p2 => {
+                    out.push(format!("message {m1} was told to actor {t} and the tell returned Ok before message {m2} was sent, yet {m2} was handled first (handling order = acceptance order)"));
+                    break 'fifo;
+                }
+                (None, Some(_)) => {
+                    out.push(format!("message {m1} was told to actor {t} and the tell returned Ok before message {m2} was sent; {m2} was handled and {m1} never was"));
+                    break 'fifo;
+                }
+                _ => {}
+            }
+        }
+    }
     for l in trace {
         let ws: Vec<&str> = l.split_whitespace().collect();
         match ws.as_slice() {
@@ -782,6 +883,7 @@ pub fn history_oracles(trace: &[String], acyclic: bool) -> Vec<String> {
                 }
             }
             ["N", "poisoned", "true"] => out.push("the wait-for lock is poisoned".into()),
+            ["N", "earlyTimeout", a, mid, el, d] => out.push(format!("ask {mid} of actor {a} returned Err(Timeout) after {el} ms, before its {d} ms deadline")),
             _ => {}
         }
     }
